@@ -28,14 +28,17 @@ pub struct SendFuture<'a, T: Send> {
   shared: &'a Arc<Shared<T>>,
   item: Option<T>,
   my_id: Option<u64>,
+  /// The handle that created this future had already been `close()`d.
+  handle_closed: bool,
 }
 
 impl<'a, T: Send> SendFuture<'a, T> {
-  pub(crate) fn new(shared: &'a Arc<Shared<T>>, item: T) -> Self {
+  pub(crate) fn new(shared: &'a Arc<Shared<T>>, item: T, handle_closed: bool) -> Self {
     SendFuture {
       shared,
       item: Some(item),
       my_id: None,
+      handle_closed,
     }
   }
 
@@ -62,7 +65,7 @@ impl<'a, T: Send> Future for SendFuture<'a, T> {
       None => return Poll::Ready(Ok(())),
     };
 
-    if !this.shared.receivers_alive() {
+    if this.handle_closed || !this.shared.receivers_alive() {
       this.unregister();
       return Poll::Ready(Err(SendError::Closed));
     }
@@ -111,13 +114,15 @@ impl<'a, T: Send> Drop for SendFuture<'a, T> {
 pub struct RecvFuture<'a, T: Send> {
   shared: &'a Arc<Shared<T>>,
   my_id: Option<u64>,
+  handle_closed: bool,
 }
 
 impl<'a, T: Send> RecvFuture<'a, T> {
-  pub(crate) fn new(shared: &'a Arc<Shared<T>>) -> Self {
+  pub(crate) fn new(shared: &'a Arc<Shared<T>>, handle_closed: bool) -> Self {
     RecvFuture {
       shared,
       my_id: None,
+      handle_closed,
     }
   }
 
@@ -135,6 +140,9 @@ impl<'a, T: Send> Future for RecvFuture<'a, T> {
   fn poll(self: Pin<&mut Self>, cx: &mut Context<'_>) -> Poll<Self::Output> {
     let this = self.get_mut();
 
+    if this.handle_closed {
+      return Poll::Ready(Err(RecvError::Disconnected));
+    }
     if let Some(item) = this.shared.ring.pop() {
       this.unregister();
       this.shared.notify_senders();
@@ -189,15 +197,17 @@ pub struct SendBatchFuture<'a, T: Send> {
   buf: VecDeque<T>,
   sent: usize,
   my_id: Option<u64>,
+  handle_closed: bool,
 }
 
 impl<'a, T: Send> SendBatchFuture<'a, T> {
-  pub(crate) fn new(shared: &'a Arc<Shared<T>>, items: Vec<T>) -> Self {
+  pub(crate) fn new(shared: &'a Arc<Shared<T>>, items: Vec<T>, handle_closed: bool) -> Self {
     SendBatchFuture {
       shared,
       buf: items.into(),
       sent: 0,
       my_id: None,
+      handle_closed,
     }
   }
 
@@ -225,7 +235,7 @@ impl<'a, T: Send> Future for SendBatchFuture<'a, T> {
         }
       };
 
-      if !this.shared.receivers_alive() {
+      if this.handle_closed || !this.shared.receivers_alive() {
         this.buf.push_front(item);
         this.unregister();
         let unsent: Vec<T> = mem::take(&mut this.buf).into();
@@ -284,10 +294,11 @@ pub struct SendBatchMutFuture<'a, T: Send> {
   sent: usize,
   my_id: Option<u64>,
   done: bool,
+  handle_closed: bool,
 }
 
 impl<'a, T: Send> SendBatchMutFuture<'a, T> {
-  pub(crate) fn new(shared: &'a Arc<Shared<T>>, items: &'a mut Vec<T>) -> Self {
+  pub(crate) fn new(shared: &'a Arc<Shared<T>>, items: &'a mut Vec<T>, handle_closed: bool) -> Self {
     // Move the items inline; on completion or cancellation the unsent remainder
     // is written back into `items` (cancel-safety).
     let buf = mem::take(items).into();
@@ -298,6 +309,7 @@ impl<'a, T: Send> SendBatchMutFuture<'a, T> {
       sent: 0,
       my_id: None,
       done: false,
+      handle_closed,
     }
   }
 
@@ -331,7 +343,7 @@ impl<'a, T: Send> Future for SendBatchMutFuture<'a, T> {
         }
       };
 
-      if !this.shared.receivers_alive() {
+      if this.handle_closed || !this.shared.receivers_alive() {
         this.buf.push_front(item);
         this.unregister();
         this.restore_unsent();
@@ -392,14 +404,16 @@ pub struct RecvBatchFuture<'a, T: Send> {
   shared: &'a Arc<Shared<T>>,
   max: usize,
   my_id: Option<u64>,
+  handle_closed: bool,
 }
 
 impl<'a, T: Send> RecvBatchFuture<'a, T> {
-  pub(crate) fn new(shared: &'a Arc<Shared<T>>, max: usize) -> Self {
+  pub(crate) fn new(shared: &'a Arc<Shared<T>>, max: usize, handle_closed: bool) -> Self {
     RecvBatchFuture {
       shared,
       max,
       my_id: None,
+      handle_closed,
     }
   }
 
@@ -431,6 +445,9 @@ impl<'a, T: Send> Future for RecvBatchFuture<'a, T> {
   fn poll(self: Pin<&mut Self>, cx: &mut Context<'_>) -> Poll<Self::Output> {
     let this = self.get_mut();
 
+    if this.handle_closed {
+      return Poll::Ready(Err(RecvError::Disconnected));
+    }
     if this.max == 0 {
       this.unregister();
       return Poll::Ready(Ok(Vec::new()));
@@ -488,15 +505,17 @@ pub struct RecvBatchMutFuture<'a, T: Send> {
   out: &'a mut Vec<T>,
   max: usize,
   my_id: Option<u64>,
+  handle_closed: bool,
 }
 
 impl<'a, T: Send> RecvBatchMutFuture<'a, T> {
-  pub(crate) fn new(shared: &'a Arc<Shared<T>>, out: &'a mut Vec<T>, max: usize) -> Self {
+  pub(crate) fn new(shared: &'a Arc<Shared<T>>, out: &'a mut Vec<T>, max: usize, handle_closed: bool) -> Self {
     RecvBatchMutFuture {
       shared,
       out,
       max,
       my_id: None,
+      handle_closed,
     }
   }
 
@@ -530,6 +549,9 @@ impl<'a, T: Send> Future for RecvBatchMutFuture<'a, T> {
   fn poll(self: Pin<&mut Self>, cx: &mut Context<'_>) -> Poll<Self::Output> {
     let this = self.get_mut();
 
+    if this.handle_closed {
+      return Poll::Ready(Err(RecvError::Disconnected));
+    }
     if this.max == 0 {
       this.unregister();
       return Poll::Ready(Ok(0));
